@@ -62,7 +62,7 @@ class VLoop(base_events.BaseEventLoop):
     def __init__(self) -> None:
         super().__init__()
         self._vtime = 0.0
-        self._clock_resolution = 2.0 ** -40
+        self._clock_resolution = 2.0 ** -20  # must exceed the float ulp at the largest virtual time used
         self._selector = _NoSelector(self)
         self.unhandled: list[dict] = []
         self.set_exception_handler(self._record_unhandled)
